@@ -137,6 +137,7 @@ def gen_const(rng: random.Random, name: str):
 
 class C12(Check):
     PROP = "C12"
+    CRASH_ORACLE = "C12.invariant"
     RULE = ("each run = 6 single-file definitions with 1-3 constants each (bool, (u)int of 15 widths, saturated/truncated, "
             "float16/32/64); values at, just inside and just outside every boundary, halves, 1/3, 0.1, strings of length 0/1/2, "
             "non-ASCII and control characters, booleans on numbers and numbers on booleans, sets; every definition is read "
